@@ -19,6 +19,8 @@ pub struct Mapping {
     pub died: u64,
     /// reservation (addr, len) this window was placed into (red-zone mode)
     pub resv: Option<(usize, usize)>,
+    /// id of the mmap call this piece comes from (pieces appear when a mapping is unmapped in part)
+    pub origin: u32,
 }
 
 #[derive(Clone, Copy, Debug, PartialEq, Eq)]
@@ -93,6 +95,21 @@ impl SysModel {
     }
     pub fn find_live(&self, addr: usize) -> Option<&Mapping> {
         self.maps.iter().find(|m| m.live && addr >= m.addr && addr < m.addr + m.len.max(1))
+    }
+    /// every page of [addr, addr+len) lies inside a live mapping the library made
+    pub fn covered(&self, addr: usize, len: usize) -> bool {
+        let mut p = addr;
+        let end = addr + len;
+        while p < end {
+            match self.maps.iter().find(|m| m.live && p >= m.addr && p < m.addr + round_up(m.len.max(1))) {
+                Some(m) => p = m.addr + round_up(m.len.max(1)),
+                None => return false,
+            }
+        }
+        true
+    }
+    pub fn origin_live(&self, origin: u32) -> bool {
+        self.maps.iter().any(|m| m.live && m.origin == origin)
     }
     pub fn is_live_exact(&self, addr: usize, len: usize) -> bool {
         self.maps.iter().any(|m| m.live && m.addr == addr && m.len == len)
@@ -233,6 +250,7 @@ pub unsafe fn hook_mmap(
         born: seq,
         died: 0,
         resv,
+        origin: id,
     });
     c.ev(EvKind::Sys, 1, len as u64, id as u64);
     #[cfg(feature = "xen")]
@@ -251,34 +269,83 @@ pub unsafe fn hook_munmap(addr: *mut libc::c_void, len: libc::size_t) -> libc::c
     c.sys.seq += 1;
     let seq = c.sys.seq;
     let a = addr as usize;
-    if let Some(i) = c.sys.maps.iter().position(|m| m.live && m.addr == a) {
+    // kernel semantics: whole pages; an unaligned address or a zero length is EINVAL and changes nothing
+    if a % page() != 0 || len == 0 || a.checked_add(round_up(len)).is_none() {
+        c.count("sys.munmap_einval");
+        c.ev(EvKind::Sys, 2, u64::MAX - 1, len as u64);
+        set_errno(libc::EINVAL);
+        return -1;
+    }
+    let end = a + round_up(len);
+    let idxs: Vec<usize> = c.sys.maps.iter().enumerate().filter(|(_, m)| m.live && m.addr < end && m.addr + round_up(m.len.max(1)) > a).map(|(i, _)| i).collect();
+    let mut covered = 0usize;
+    let mut ret = 0;
+    for i in idxs {
         let m = c.sys.maps[i].clone();
-        if m.len != len {
-            c.sys.anomalies.push(format!("munmap of mapping #{} with length {} instead of {}", m.id, len, m.len));
+        let (ms, me) = (m.addr, m.addr + round_up(m.len.max(1)));
+        let (os, oe) = (ms.max(a), me.min(end));
+        covered += oe - os;
+        if os == ms && oe == me {
+            c.sys.maps[i].live = false;
+            c.sys.maps[i].died = seq;
+            c.ev(EvKind::Sys, 2, m.id as u64, len as u64);
+            #[cfg(feature = "xen")]
+            if !c.sys.maps.iter().any(|x| x.live && x.origin == m.origin) {
+                if let Some(x) = c.sys.xen.as_mut() {
+                    x.on_munmap(m.origin);
+                }
+            }
+        } else {
+            // part of a mapping is released: the rest stays mapped (and owed an unmap)
+            c.count("sys.munmap_partial");
+            c.ev(EvKind::Sys, 2, m.id as u64, (oe - os) as u64 | 1 << 62);
+            let unrounded_end = ms + m.len;
+            if os == ms {
+                c.sys.maps[i].addr = oe;
+                c.sys.maps[i].len = unrounded_end.saturating_sub(oe).max(1);
+                c.sys.maps[i].off += (oe - ms) as i64;
+            } else {
+                c.sys.maps[i].len = os - ms;
+                if oe < me {
+                    let id = c.sys.next_id;
+                    c.sys.next_id += 1;
+                    let mut tail = m.clone();
+                    tail.id = id;
+                    tail.addr = oe;
+                    tail.len = unrounded_end.saturating_sub(oe).max(1);
+                    tail.off += (oe - ms) as i64;
+                    c.sys.maps.push(tail);
+                }
+            }
         }
-        c.sys.maps[i].live = false;
-        c.sys.maps[i].died = seq;
-        c.ev(EvKind::Sys, 2, m.id as u64, len as u64);
-        #[cfg(feature = "xen")]
-        if let Some(x) = c.sys.xen.as_mut() {
-            x.on_munmap(m.id);
-        }
-        if m.resv.is_some() {
+        let r = if m.resv.is_some() {
             // keep the address range reserved so that it cannot be reused during this run
-            let r = libc::mmap(addr, round_up(m.len), libc::PROT_NONE, libc::MAP_PRIVATE | libc::MAP_ANONYMOUS | libc::MAP_FIXED | libc::MAP_NORESERVE, -1, 0);
-            return if r == libc::MAP_FAILED { -1 } else { 0 };
+            let r = libc::mmap(os as *mut libc::c_void, oe - os, libc::PROT_NONE, libc::MAP_PRIVATE | libc::MAP_ANONYMOUS | libc::MAP_FIXED | libc::MAP_NORESERVE, -1, 0);
+            if r == libc::MAP_FAILED {
+                -1
+            } else {
+                0
+            }
+        } else {
+            libc::munmap(os as *mut libc::c_void, oe - os)
+        };
+        if r != 0 {
+            ret = r;
         }
-        return libc::munmap(addr, m.len);
     }
-    if let Some(m) = c.sys.maps.iter().find(|m| !m.live && m.addr == a) {
-        let id = m.id;
-        c.sys.anomalies.push(format!("second munmap of mapping #{}", id));
-        c.ev(EvKind::Sys, 2, id as u64, u64::MAX);
-        return 0;
+    if covered < end - a {
+        // pages that are not the library's to unmap are left alone (they may be anybody's)
+        let c = cx();
+        if let Some(m) = c.sys.maps.iter().find(|m| !m.live && m.died != seq && m.addr < end && m.addr + round_up(m.len.max(1)) > a) {
+            let id = m.id;
+            c.sys.anomalies.push(format!("second munmap of mapping #{}", id));
+            c.ev(EvKind::Sys, 2, id as u64, u64::MAX);
+        } else {
+            c.sys.anomalies.push(format!("munmap of {} byte(s) at an address the library never mapped", len));
+            c.ev(EvKind::Sys, 2, u64::MAX, len as u64);
+        }
     }
-    c.sys.anomalies.push(format!("munmap of {} byte(s) at an address the library never mapped", len));
-    c.ev(EvKind::Sys, 2, u64::MAX, len as u64);
-    0
+    ret
 }
 
 fn next_verdict() -> IoVerdict {
